@@ -40,7 +40,15 @@ class C19(ProgramProperty):
         steps = []
         src = None
         if with_conv:
-            steps += [init_step(0, [rec("known", "http://known.example/"), rec("kx", "http://e.org/x/a_")])]
+            known = [rec("known", "http://known.example/"), rec("kx", "http://e.org/x/a_")]
+            if rng.random() < 0.6:
+                # a URI prefix that runs past the delimiter into the identifier: it recognises only some
+                # of the URIs that share a split prefix
+                u0 = rng.choice(uris)
+                cut = u0[: max(1, len(u0) - rng.choice([0, 1, 1]))]
+                if cut not in ("http://known.example/", "http://e.org/x/a_"):
+                    known.append(rec("partial", cut))
+            steps += [init_step(0, known)]
             src = 0
         orders = [list(uris)]
         s2 = list(uris)
